@@ -1,7 +1,7 @@
 (* Reference semantics of the fragment of Python's [re] that tbutils' three patterns
    use: a sequence of items matched from the start of the string (re.match), literals,
    ^ and $ (no MULTILINE), greedy one-or-more of a character class inside a capturing
-   group, greedy zero-or-more of a class; repetition backtracks one character at a
+   group, greedy zero-or-more of a class, an optional literal; repetition backtracks one character at a
    time (leftmost-greedy).  The patterns themselves are regenerated from the source on
    every run (Gen/C16_Gen.v: gen_frame_items, gen_se_items, gen_underline_items).
    A formalised external standard: validated on every run against the real re module
@@ -19,7 +19,8 @@ Inductive item :=
 | IBol                       (* ^ *)
 | IEol                       (* $ : at the end, or just before a final LF *)
 | IPlusGroup (name : N) (k : cls)      (* (?P<name>k+) *)
-| IStar (k : cls).                      (* k* *)
+| IStar (k : cls)                       (* k* *)
+| IOpt (c : N).                         (* c? for a literal c *)
 
 Section Re.
   Context (C : cc).
@@ -73,6 +74,16 @@ Section Re.
         end
     | IStar k :: r =>
         greedy (in_cls k) (fun consumed rest => rmatch r (at0 && is_nil consumed) rest cp) [] s
+    | IOpt c :: r =>
+        match s with
+        | x :: s' => if x =? c
+                     then match rmatch r false s' cp with
+                          | Some res => Some res
+                          | None => rmatch r at0 s cp
+                          end
+                     else rmatch r at0 s cp
+        | [] => rmatch r at0 s cp
+        end
     end.
 
   (* pattern.match(s): None, or the groups 1..n *)
